@@ -86,6 +86,12 @@ def run(ctx):
         bad_ = PSL.run_site(u, fn_, lp_)
         ctx.ob("R11.9", "%s: value before a range" % q_, not bad_, site=A.where(c_), detail={"scenarios": len(PSL.SCENARIOS), "mismatches": bad_[:3]},
                what="%s hands rtosc_print_arg_val a value that is not the slot in front of the current argument: %s" % (q_, bad_[:2]))
+    ctx.rule("R11.10", "NUMERIC-SPELLING: the format the readers choose for an integer token (scanf_fmtstr), applied to the token, yields the value the spelling denotes as a C literal - decimal, 0x hexadecimal, leading-zero octal - with and without the `i` suffix; digits that are no C literal (08) read as decimal")
+    from ..rules import numspell as NSP
+    bad10, n10 = NSP.run(u)
+    ctx.ob("R11.10", "integer spellings", not bad10, site=A.where(u.function("scanf_fmtstr")), detail={"tokens": n10, "mismatches": bad10[:6]},
+           key="R11.10:integer spellings",
+           what="the readers give integer spellings another value than they denote: %s" % bad10[:3])
     chk = u.function("rtosc_skip_next_printed_arg")
     scn = u.function("rtosc_scan_arg_val")
     swc, sws = R.top_switch(u, chk), R.top_switch(u, scn)
